@@ -7,7 +7,10 @@ from ..core import HEADER, CASE_TYPE, CHECK, MODEL_VIEW, SHARD, CASE_TIMEOUT, ob
 ID = "C10"
 THEOREMS = ["C10_if_true", "C10_if_false_else", "C10_if_false_nothing", "C10_condition", "C10_for", "C10_for_range",
             "C10_for_empty", "C10_sequence", "C10_for_unrolled_assembly", "C10_for_unrolled_labels", "C10_kind_invisible",
-            "C10_if_assembly", "C10_if_true_assembly", "C10_if_undefined_assembly", "C10_if_false_assembly", "C10_nesting_stable"]
+            "C10_if_assembly", "C10_if_true_assembly", "C10_if_undefined_assembly", "C10_if_false_assembly", "C10_nesting_stable",
+            # the printer / front-end round trip that lifts the AST-level statements to source text
+            "Front_roundtrip", "Front_assemble_printed", "Front_assemble_ast_printed"]
+PROOF_HEADER = "From A816 Require Import Properties.C10 Properties.FrontEnd."
 RULE = ("generated programs with .if (zero, non-zero, negative, large, undefined-name conditions, with/without else) and "
         ".for (empty, single, many, negative start, bounds from constants and macro parameters) incl. nesting and use inside "
         "macros; each compared with the model and with its hand-expanded twin (selected branch inline, { v = k body } per "
@@ -113,3 +116,8 @@ def cases(ctx):
                 "src": f"*={org:#08x}\nc := 2\n.for a := 0, 3 {{\n.for b := 0, c {{\n.if c - 1 {{\n.db a, b\n}}\n}}\n}}\n",
                 "twin_src": f"*={org:#08x}\n.db 0, 0, 0, 1, 1, 0, 1, 1, 2, 0, 2, 1\n"})
     return out
+
+
+def instantiate(gen_q):
+    from .. import frontinst
+    return frontinst.instantiate(gen_q, "c10")
